@@ -11,4 +11,5 @@ def run(ctx):
     ls = lemmas_stage2.p3_lemmas(ctx.tier, ndjson=(1,))
     ls += lemmas_stage2.p3_skeleton_lemmas(ctx.tier, ndjson=(1,))
     ls += lemmas_stage2.u1_lemmas(ctx.tier, ndjson=(1,), havoc=(0,))
+    ls += lemmas_stage2.u3_lemmas(ctx.tier, ndjson=(1,))
     run_lemmas(ctx, ls)
